@@ -125,7 +125,9 @@ def exit0_StepPost (env : PEnv) (orc : EvalOracles) (expr : Expr) (md : Maildir)
       (key ≠ (md.path, n) → w.lookup key.1 key.2 = none) ∧
       ∀ x : Bytes × Bytes, x ≠ (md.path, n) → x ≠ key → w'.lookup x.1 x.2 = w.lookup x.1 x.2)
 
-/-- `processMessage` meets `exit0_StepPost` under at most one fault, for the rules `expr`. -/
+/-- `processMessage` meets `exit0_StepPost` under at most one fault, for the rules `expr`.  (`exit0_Outcome` refers to the
+pure `verdict`: the theorems that establish `exit0_StepOK` are for rule trees that ask the operating system nothing,
+`asksFree`.) -/
 def exit0_StepOK (env : PEnv) (orc : EvalOracles) (expr : Expr) : Prop :=
   ∀ (md : Maildir) (n : Bytes) (st : MainSt) (w : World) (d : Handle) (c : Bytes) (fid : Nat) (b : Bool),
     md.dirH = some d → w.dirPath d = some md.path → pathjoin PATH_MAX md.root (subdirName md.subdir) = some md.path →
@@ -137,7 +139,7 @@ def exit0_StepOK (env : PEnv) (orc : EvalOracles) (expr : Expr) : Prop :=
 theorem exit0_quiet_processMessage (env : PEnv) (orc : EvalOracles) (expr : Expr) (md : Maildir) (name : Bytes) (st : MainSt)
     {w : World} {d : Handle} {content : Bytes} {fid : Nat}
     (hd : md.dirH = some d) (hp : w.dirPath d = some md.path) (hfc : st.files.get md.path name = some content)
-    (hl : w.lookup md.path name = some fid)
+    (hl : w.lookup md.path name = some fid) (hfree : asksFree expr = true)
     (hq : env.dryrun = true ∨ (verdict env orc expr md.path name content).acts = false) :
     wp (WholePF w) (processMessage env orc expr md name st)
       (fun r w' => WholePF w w' ∧ r.2 = md ∧ r.1.files = st.files ∧
@@ -152,7 +154,7 @@ theorem exit0_quiet_processMessage (env : PEnv) (orc : EvalOracles) (expr : Expr
   | none => exact ⟨pf, rfl, rfl, fun h => by cases h⟩
   | some ms =>
     have hv := msVerdict_of_parsed env orc expr md.path name content ms hpa
-    simp only [afterParse, hv]
+    rw [afterParse_asksFree env orc expr hfree, hv]
     obtain ⟨h1, h2, h3, h4, h5, -⟩ := hms ms rfl
     obtain ⟨p, mf, hpj, -, -, -, hpath, -⟩ := hpa ms rfl
     have hp' : ms.path = md.path ++ [47] ++ name := by rw [hpath]; exact World.pathjoin_eq hpj
@@ -185,10 +187,10 @@ theorem exit0_quiet_processMessage (env : PEnv) (orc : EvalOracles) (expr : Expr
 theorem exit0_step_quiet (env : PEnv) (orc : EvalOracles) (expr : Expr) (md : Maildir) (n : Bytes) (st : MainSt)
     {w : World} {d : Handle} {c : Bytes} {fid : Nat} (b : Bool)
     (hd : md.dirH = some d) (hp : w.dirPath d = some md.path) (hfc : st.files.get md.path n = some c)
-    (hl : w.lookup md.path n = some fid)
+    (hl : w.lookup md.path n = some fid) (hfree : asksFree expr = true)
     (hq : env.dryrun = true ∨ (verdict env orc expr md.path n c).acts = false) :
     wpS (processMessage env orc expr md n st) (fun _ r w' => exit0_StepPost env orc expr md n c st w r w') b w := by
-  refine wpS_mono (wpS_of_wp b (exit0_quiet_processMessage env orc expr md n st hd hp hfc hl hq)) ?_
+  refine wpS_mono (wpS_of_wp b (exit0_quiet_processMessage env orc expr md n st hd hp hfc hl hfree hq)) ?_
   rintro _ r w' ⟨pf, hmd, hfiles, hout⟩
   refine ⟨hmd, pf.toK _, fun hreg => by rw [hfiles]; exact hreg.of_pf pf, ?_⟩
   intro he
@@ -206,6 +208,7 @@ theorem exit0_sf_act (env : PEnv) (orc : EvalOracles) (expr : Expr) (md : Maildi
     (hwf : pathjoin PATH_MAX md.root (subdirName md.subdir) = some md.path)
     (hfc : st.files.get md.path name = some content)
     (hl : w.lookup md.path name = some fid) (hlt : fid < w.nextFid) (hf : w.file fid = some ⟨content, content⟩)
+    (hfree : asksFree expr = true)
     (hvd : verdict env orc expr md.path name content = .act ml msgs fl) (hml : NoDiscard ml)
     (hdry : env.dryrun = false) (b : Bool) :
     wpS (processMessage env orc expr md name st)
@@ -224,7 +227,8 @@ theorem exit0_sf_act (env : PEnv) (orc : EvalOracles) (expr : Expr) (md : Maildi
   | none => intro he; cases he
   | some ms =>
     have hv := msVerdict_of_parsed env orc expr md.path name content ms hpa
-    simp only [afterParse, hv, hvd, afterVerdict, hdry, Bool.false_eq_true, if_false]
+    rw [afterParse_asksFree env orc expr hfree]
+    simp only [hv, hvd, afterVerdict, hdry, Bool.false_eq_true, if_false]
     obtain ⟨h1, h2, h3, h4, h5, -⟩ := hms ms rfl
     obtain ⟨p, mf, hpj, -, -, -, hpath, -⟩ := hpa ms rfl
     have hp' : ms.path = md.path ++ [47] ++ name := by rw [hpath]; exact World.pathjoin_eq hpj
@@ -286,18 +290,19 @@ theorem exit0_sf_act (env : PEnv) (orc : EvalOracles) (expr : Expr) (md : Maildi
         exact this
 
 /-- A dry run meets the specification, whatever the rules are. -/
-theorem exit0_step_dry (env : PEnv) (orc : EvalOracles) (expr : Expr) (hdry : env.dryrun = true) :
+theorem exit0_step_dry (env : PEnv) (orc : EvalOracles) (expr : Expr) (hfree : asksFree expr = true) (hdry : env.dryrun = true) :
     exit0_StepOK env orc expr :=
-  fun md n st _ _ _ _ b hd hp _ hfc hl _ _ => exit0_step_quiet env orc expr md n st b hd hp hfc hl (.inl hdry)
+  fun md n st _ _ _ _ b hd hp _ hfc hl _ _ => exit0_step_quiet env orc expr md n st b hd hp hfc hl hfree (.inl hdry)
 
 /-- A real run with rules that never discard meets the specification. -/
-theorem exit0_step_real (env : PEnv) (orc : EvalOracles) (expr : Expr) (hdry : env.dryrun = false)
+theorem exit0_step_real (env : PEnv) (orc : EvalOracles) (expr : Expr) (hfree : asksFree expr = true) (hdry : env.dryrun = false)
     (hnd : WholeNoDiscard env orc expr) : exit0_StepOK env orc expr := by
   intro md n st w d c fid b hd hp hwf hfc hl hlt hf
   cases hvd : verdict env orc expr md.path n c with
   | act ml msgs fl =>
     have hA := wpS_of_wp b (whole_processMessage env orc expr md n st hd hp hwf hfc hl hlt hf hnd)
-    have hB := exit0_sf_act env orc expr md n st hd hp hwf hfc hl hlt hf hvd (hnd _ _ _ _ _ _ hvd) hdry b
+    have hB := exit0_sf_act env orc expr md n st hd hp hwf hfc hl hlt hf hfree hvd
+      (hnd md.path n c [] ml msgs fl (by rw [verdictA_asksFree env orc expr hfree]; exact hvd)) hdry b
     refine wpS_mono (wpS_and hA hB) ?_
     rintro _ r w' ⟨⟨hmd, k, hreg⟩, hout⟩
     refine ⟨hmd, k, fun h => (hreg h).1, fun he => ?_⟩
@@ -306,9 +311,9 @@ theorem exit0_step_real (env : PEnv) (orc : EvalOracles) (expr : Expr) (hdry : e
     · simp only [exit0_Outcome, hvd, hdry, Bool.false_eq_true, if_false]
       exact ⟨trivial, trivial, h3, h4⟩
     · rw [h1]; exact exit0_filesUpd_move _ _ _ _
-  | unparsable => exact exit0_step_quiet env orc expr md n st b hd hp hfc hl (.inr (by rw [hvd]; rfl))
-  | «nomatch» => exact exit0_step_quiet env orc expr md n st b hd hp hfc hl (.inr (by rw [hvd]; rfl))
-  | error => exact exit0_step_quiet env orc expr md n st b hd hp hfc hl (.inr (by rw [hvd]; rfl))
-  | interpFail => exact exit0_step_quiet env orc expr md n st b hd hp hfc hl (.inr (by rw [hvd]; rfl))
+  | unparsable => exact exit0_step_quiet env orc expr md n st b hd hp hfc hl hfree (.inr (by rw [hvd]; rfl))
+  | «nomatch» => exact exit0_step_quiet env orc expr md n st b hd hp hfc hl hfree (.inr (by rw [hvd]; rfl))
+  | error => exact exit0_step_quiet env orc expr md n st b hd hp hfc hl hfree (.inr (by rw [hvd]; rfl))
+  | interpFail => exact exit0_step_quiet env orc expr md n st b hd hp hfc hl hfree (.inr (by rw [hvd]; rfl))
 
 end Mdsort.Proofs
